@@ -592,6 +592,8 @@ nni_sock_create(nni_sock **sp, const nni_proto *proto)
 
 	if (((rv = nni_msgq_init(&s->s_uwq, 0)) != 0) ||
 	    ((rv = nni_msgq_init(&s->s_urq, 1)) != 0)) {
+		// the protocol was never initialised: nothing for it to undo
+		s->s_data = NULL;
 		sock_destroy(s);
 		return (rv);
 	}
